@@ -24,6 +24,8 @@ const (
 	reSubdomain = `(re.+ (re.union (re.range "a" "z") (re.range "0" "9") (str.to_re "-") (str.to_re ".")))`
 	reKind      = `(re.++ (re.range "A" "Z") (re.* (re.union (re.range "a" "z") (re.range "A" "Z") (re.range "0" "9"))))`
 	rePrintable = `(re.* (re.range " " "~"))`
+	// printable, non-blank, without the CNI_ARGS separators ';' and '='
+	reCniArg = `(re.+ (re.union (re.range "!" ":") (str.to_re "<") (re.range ">" "~")))`
 )
 
 func registerModels(e *Engine) {
@@ -119,6 +121,8 @@ func registerVerifModels(e *Engine) {
 			re = reKind
 		case "printable":
 			re = rePrintable
+		case "cniarg":
+			re = reCniArg
 		case "any":
 		default:
 			fr.unmodelled("nondetString class %q", class)
@@ -728,6 +732,19 @@ func registerSymStringModels(e *Engine) {
 			return tuple{0, fr.p.eng.newErrorString("strconv.Atoi: parsing: invalid syntax")}
 		}
 		return tuple{sym{st.Var(fmt.Sprintf("atoi%dval", n), smt.BV(64)), types.Int}, iface{}}
+	}
+	// TrimSpace of a symbolic string: modelled only when the solver shows there is nothing to trim
+	e.symModels["strings.TrimSpace"] = func(fr *frame, fn *ssa.Function, args []value) value {
+		st := fr.p.st
+		s := strT(fr, args[0])
+		blankEdge := st.BoolC(false)
+		for _, ws := range []string{" ", "\t", "\n", "\r", "\v", "\f"} {
+			blankEdge = st.Or(blankEdge, st.Or(st.StrOp(smt.OStrPrefixOf, smt.Bool, st.StrC(ws), s), st.StrOp(smt.OStrSuffixOf, smt.Bool, st.StrC(ws), s)))
+		}
+		if fr.p.check(blankEdge) != smt.Unsat {
+			fr.unmodelled("strings.TrimSpace of a symbolic string that may have leading or trailing white space")
+		}
+		return fromTerm(s, types.String)
 	}
 	e.symModels["strings.TrimSuffix"] = func(fr *frame, fn *ssa.Function, args []value) value {
 		st := fr.p.st
